@@ -77,3 +77,12 @@ CASES += [
       "            if True:\n                self.data = RR\n                self._data_initialized = True\n                                                         \n            self.as_operators = False",
       "            self.data = RR\n            self._data_initialized = True\n            self.as_operators = False"),
 ]
+
+CASES += [
+    m("Lindblad form keeps the operators of the system-bath interaction themselves (the repaired defect)", "C07-G", R + "lindbladform.py",
+      "            KK = sbi.KK.copy()", "            KK = sbi.KK"),
+    m("Lindblad form keeps a view of the operators of the system-bath interaction", "C07-G", R + "lindbladform.py",
+      "            KK = sbi.KK.copy()", "            KK = numpy.asarray(sbi.KK)"),
+    t("copy made with numpy.array", R + "lindbladform.py",
+      "            KK = sbi.KK.copy()", "            KK = numpy.array(sbi.KK)"),
+]
